@@ -40,23 +40,23 @@ META = {
 def check(ctx):
     m = rc.build(ctx, "R12")
     schema, extras = gaf_schema(ctx.repo, "R12")
-    r12_1(ctx, m, schema)
-    r12_2(ctx, m)
-    r12_3(ctx, m, schema, extras)
-    r12_4(ctx, m)
+    ctx.run(r12_1, m, schema)
+    ctx.run(r12_2, m)
+    ctx.run(r12_3, m, schema, extras)
+    ctx.run(r12_4, m)
     # the reference slice is cut from the spelled path: the spelling rules are shared with C14
     from . import gfa_common as gc
     from . import c14
 
     g = gc.build(ctx, "R14")
-    c14.r14_1(ctx, g)
-    c14.r14_2_3(ctx, g)
+    ctx.run(c14.r14_1, g)
+    ctx.run(c14.r14_2_3, g)
     from . import c16 as _c16
     from .c19 import tag_loop as _tl, tag_regex_info as _ti
 
     _pf, _loop = _tl(ctx, "R16.1")
-    _c16.r16_1(ctx, _pf, _loop, _ti(_pf, _loop, "R16.1"))  # optional fields survive: the parser accepts the tag grammar (shared with C16)
-    _c16.r16_2(ctx, _pf, _loop)
+    ctx.run(_c16.r16_1, _pf, _loop, _ti(_pf, _loop, "R16.1"))  # optional fields survive: the parser accepts the tag grammar (shared with C16)
+    ctx.run(_c16.r16_2, _pf, _loop)
     ctx.not_decided += [
         "validity and optimality of the CIGAR computed by pyWFA's WavefrontAligner (C extension)",
         "the pattern/text role convention of WavefrontAligner(ref)(query) (checked only for being the same at tally and emission)",
@@ -65,11 +65,11 @@ def check(ctx):
     # mechanisms this property rests on (see shared.py): a change there is reported here as well
     from . import shared as _sh
 
-    _sh.path_tokenisers(ctx)
-    _sh.gaf_reader(ctx)
-    _sh.tag_parser(ctx)
-    _sh.graph_loader(ctx)
-    _sh.cli_layer(ctx, "gaftools.cli.realign")
+    ctx.run(_sh.path_tokenisers)
+    ctx.run(_sh.gaf_reader)
+    ctx.run(_sh.tag_parser)
+    ctx.run(_sh.graph_loader)
+    ctx.run(_sh.cli_layer, "gaftools.cli.realign")
 
 
 def r12_1(ctx, m, schema):
